@@ -81,6 +81,9 @@ func (e *Engine) intercept(fn *ssa.Function, args []Value) (Value, bool) {
 		return nil, true
 	case "time.NewTicker":
 		e.stub(key)
+		if e.noTickerMsg != "" {
+			e.unmodelled(e.noTickerMsg)
+		}
 		d := args[0].(*Term)
 		if e.decide(e.binopInt(token.LEQ, d, e.intConst(64, 0), 64, true).(*Term), "ticker-nonpositive") {
 			e.progPanic("non-positive interval for NewTicker")
@@ -730,6 +733,9 @@ func (e *Engine) intrinsic(name string, fn *ssa.Function, args []Value) (Value, 
 		return nil, true
 	case "vDecline":
 		e.declined = true
+		return nil, true
+	case "vNoTickers":
+		e.noTickerMsg = str(0)
 		return nil, true
 	case "vSleepBudget":
 		e.sleepBudget = e.concreteInt(args[0].(*Term), "vSleepBudget")
